@@ -101,6 +101,10 @@ pub enum Rule {
     BothKeys(u32),
     /// carries only the other scheme's key entry name with this key's bytes
     OtherSchemeEntryOnly,
+    /// regions the property leaves open (counted, never judged): a 65-byte uncompressed key,
+    /// non-canonical bytes inside a list value under an unknown key
+    PkUncompressed,
+    InnerNonCanonList,
 }
 
 impl Rule {
@@ -250,6 +254,19 @@ pub fn emit(c: &Content, rule: &Rule, canon_sig: bool) -> Vec<u8> {
                 _ => (PkKind::Secp, ref_pk(PkKind::Secp, *other_idx)),
             };
             sem.insert(ok.entry_key().to_vec(), rlp::enc_str(&obytes));
+        }
+        Rule::PkUncompressed => {
+            if c.kind == PkKind::Secp {
+                let pk = ref_pk(c.kind, c.key_idx);
+                if let Some(u) = rc::secp_uncompressed(&pk, Lib::Libsecp) {
+                    let mut full = vec![4u8];
+                    full.extend_from_slice(&u);
+                    sem.insert(pk_entry.clone(), rlp::enc_str(&full));
+                }
+            }
+        }
+        Rule::InnerNonCanonList => {
+            set(&mut sem, b"zlist", rlp::enc_list(&[0x81, 0x05, 0xb8, 0x01, 0x61]));
         }
         Rule::OtherSchemeEntryOnly => {
             let v = sem.remove(&pk_entry).unwrap_or_default();
